@@ -7,18 +7,17 @@ CONSTANTS
   HMatches <- MC_HMatches
   DispatchPolicy = "min_id"
   None = None
-  IntentSet = {"AB1", "B1", "N1"}
-  EventSet = {"B1"}
+  IntentSet = {"A2", "AB1", "E"}
+  EventSet = {}
   SeqNos = {7}
-  Mode = "graph"
-  MidTx = TRUE
-  UseDrainAll = TRUE
-  MaxRetry = 0
-  MaxTx = 0
+  Mode = "beh"
+  MidTx = FALSE
+  UseDrainAll = FALSE
+  MaxRetry = 2
+  MaxTx = 3
   MaxAbort = 0
   MaxDrainAll = 0
   Export = TRUE
-VIEW MC_View
-INVARIANTS GraphWellFormed PendingIsSet LedgerPartition AtMostOnce ConsumedInCanonicalOrder HandledExactlyOnce LogSound LegacyIngressBlocksFresh TicksSound DrainIsFunctionOfSet
+INVARIANTS GraphWellFormed PendingIsSet LedgerPartition AtMostOnce ConsumedInCanonicalOrder HandledExactlyOnce LogSound LegacyIngressBlocksFresh TicksSound DrainIsFunctionOfSet Inv_Export
 PROPERTIES RetryChangesNothing IngestLaw DispatchPicksMin OnlyCommitConsumes
 CHECK_DEADLOCK FALSE
